@@ -26,6 +26,14 @@ def build_cases(tier, seed):
             prof["network"] = "grid"
         ctrl = BUILTIN if i % 2 == 0 else hostile_stack(p=0.2, builtin=True)
         cases.append(trace_case("C04", i, s, prof, ctrl, steps, ["C04"], opts=({"cosim_ops": {"every": 7, "kinds": ["scale_rate", "scale_rate", "add_vehicle"]}} if i % 4 == 1 else {})))
+    # queues that hold (nearly) full vehicles: a depot rule sends full vehicles to the busy plug as well (the C18 queue scenarios)
+    from hivemon.checks.c18 import queue_spec
+
+    for j in range(8 if tier == "quick" else 80):
+        sq = seed * 100000 + 4800 + 4 * j + 2  # (seeds with sq % 4 == 2 are the ones with full vehicles)
+        spec, st = queue_spec(sq)
+        ctrl = {"stack": ["ChargingFleetManager", {"benign_queue": {"p_leave": [0.0, 0.03][j % 2], "p_abandon": 0.0, "p_resend": 0.0, "p_topup": 0.3, "p_send": 0.0}}]}
+        cases.append(trace_case("C04", j, sq, {}, ctrl, st, ["C04"], spec=spec, tag="queue"))
     nsweep = 16 if tier == "quick" else 64
     per = 4000 if tier == "quick" else 20000
     for j in range(nsweep):
